@@ -24,7 +24,9 @@ import fractions
 import json
 import logging
 import math
+import os
 import random
+import sys
 import threading
 import warnings
 from collections.abc import Sequence
@@ -45,7 +47,7 @@ RULE = (
     "seeded objective programs from a grammar (return values: floats incl. nan/+-inf/subnormal, ints incl. 10**400, bools, "
     "None, numeric/non-numeric str and bytes, lists/tuples/ranges/deques/arrays/custom Sequences of mixtures and wrong "
     "lengths, numpy scalars/0-d/1-d, Decimal, Fraction, complex, objects whose __float__ raises Value/Type/Overflow/"
-    "Runtime/ZeroDivision/custom errors; raise points before/after suggests and reports; TrialPruned with/without "
+    "Runtime/ZeroDivision/Key/custom errors; raise points before/after suggests and reports; TrialPruned with/without "
     "(NaN) reports; catch tuples incl. base classes; callbacks that log/stop/raise; after_trial raising / interrupted; "
     "another worker finishing the trial before or during the final tell; virtual-clock timeouts; enqueued trials) run on "
     "Study.optimize with n_jobs in {1,2,3}, samplers Random/TPE/NSGA-II, storages from the fleet, plus Study.tell over "
@@ -385,20 +387,12 @@ def py_feasible(obj: Any, n_obj: int) -> list[float] | None:
     return fl
 
 
-def has_foreign_cast(pv: Any) -> bool:
-    """does the scan of the classified value raise an un-named class before it finds an infeasible element?"""
+def has_bad_cast(pv: Any) -> bool:
+    """does float() fail (any exception class) on some element of the classified value?"""
     if pv is None:
         return False
     elems = pv["seq"] if "seq" in pv else [pv["scalar"]]
-    for e in elems:
-        if "ok" in e:
-            if e["ok"] == "nan":
-                return False
-        elif e["bad"].startswith("other"):
-            return True
-        else:
-            return False
-    return False
+    return any("bad" in e for e in elems)
 
 
 # --------------------------------------------------------------------------------------------------
@@ -886,8 +880,10 @@ def running_cause(run: Runner, k: int) -> str:
     ob, plan = run.obs[k], run.plans[k]
     if ob.ask_exc is not None or (ob.started and not ob.entered):
         return "sampler-raises-in-ask"
-    if ob.out and ob.out.get("k") == "ret" and has_foreign_cast(ob.out.get("v")):
-        return "float-raises-unlisted-exception"
+    if ob.out and ob.out.get("k") == "ret" and has_bad_cast(ob.out.get("v")):
+        # regression of the repaired defect "a returned value whose float() raises any exception must
+        # fail the trial" (and of F1): never a known finding, always an alarm
+        return "float-failure"
     return "other"
 
 
@@ -1266,7 +1262,8 @@ def check_tell_case(case: dict[str, Any], drv: core.Driver, tmp: str) -> dict[st
 
 
 # --------------------------------------------------------------------------------------------------
-# fixed probes: the corner cases the property statement names + the two findings' witnesses
+# fixed probes: the corner cases the property statement names, the witnesses of the repaired defects
+# (F1, F2, float() raising any exception) as regression tests, and the witness of the known finding
 
 
 def fixed_cases() -> list[dict[str, Any]]:
@@ -1293,7 +1290,9 @@ def fixed_cases() -> list[dict[str, Any]]:
         one({"k": "ret", "v": {"t": "list", "v": [F(1.0), F(math.nan)]}}, n_obj=2),
         one({"k": "ret", "v": {"t": "list", "v": [F(1.0), F(2.0)]}}),
         one({"k": "ret", "v": {"t": "floatraises", "v": "OverflowError"}}),
-        one({"k": "ret", "v": {"t": "floatraises", "v": "RuntimeError"}}),                       # finding: foreign cast
+        one({"k": "ret", "v": {"t": "floatraises", "v": "RuntimeError"}}),                       # regression: repaired, must end FAIL
+        one({"k": "ret", "v": {"t": "floatraises", "v": "ZeroDivisionError"}}),
+        one({"k": "ret", "v": {"t": "list", "v": [{"t": "floatraises", "v": "VerifUserError"}, F(math.nan)]}}, n_obj=2),
         one({"k": "ret", "v": {"t": "list", "v": [F(math.nan), {"t": "floatraises", "v": "RuntimeError"}]}}, n_obj=2),
         one({"k": "ret", "v": F(1.0)}, ask_raises="RuntimeError"),                                # finding: ask raises
         one({"k": "raise", "cls": "ValueError"}),
@@ -1326,6 +1325,10 @@ def fixed_cases() -> list[dict[str, Any]]:
 # driver of the whole check
 
 
+CASE_TIMEOUT_S = int(os.environ.get("VERIF_C02_CASE_TIMEOUT", "240"))
+_CURRENT_CASE: list[Any] = [None]
+
+
 def run_case(case: dict[str, Any], drv: core.Driver, tmp: str) -> dict[str, Any]:
     if case["kind"] == "tell":
         return check_tell_case(case, drv, tmp)
@@ -1333,12 +1336,19 @@ def run_case(case: dict[str, Any], drv: core.Driver, tmp: str) -> dict[str, Any]
 
 
 def _worker(args: tuple[list[dict[str, Any]], str]) -> list[dict[str, Any]]:
+    import faulthandler
+
     cases, tmp = args
     drv = core.Driver("tell")
     out = []
     try:
         for case in cases:
+            # watchdog: a case that does not finish is a hang (of the code under test or of the harness);
+            # dump every thread's stack and kill the worker so that the run ends as an infrastructure
+            # failure instead of waiting for ever
+            faulthandler.dump_traceback_later(CASE_TIMEOUT_S, exit=True)
             try:
+                _CURRENT_CASE[0] = case
                 out.append(run_case(case, drv, tmp))
             except core.DriverBroken as e:
                 out.append({"violations": [], "broke": [{"why": "driver broken: %s" % str(e)[:300]}], "tags": []})
@@ -1346,9 +1356,26 @@ def _worker(args: tuple[list[dict[str, Any]], str]) -> list[dict[str, Any]]:
             except Exception as e:  # the harness itself failed on this case: not silent
                 import traceback
                 out.append({"violations": [], "broke": [{"why": "harness exception %r: %s" % (e, traceback.format_exc()[-800:])}], "tags": []})
+            finally:
+                faulthandler.cancel_dump_traceback_later()
     finally:
         drv.close()
     return out
+
+
+def _map_workers(jobs: list[tuple[list[dict[str, Any]], str]], n_proc: int) -> list[list[dict[str, Any]]]:
+    """Run `_worker` over the jobs in spawned processes.  A worker that dies (the per-case watchdog
+    kills it after dumping all stacks to stderr) ends the run as an infrastructure failure (exit 2)
+    rather than hanging it."""
+    import multiprocessing as mp
+    from concurrent.futures import ProcessPoolExecutor
+    from concurrent.futures.process import BrokenProcessPool
+
+    try:
+        with ProcessPoolExecutor(max_workers=n_proc, mp_context=mp.get_context("spawn")) as ex:
+            return list(ex.map(_worker, jobs))
+    except BrokenProcessPool as e:
+        raise core.InfraError("a harness worker died or a case exceeded %d s (stacks on stderr): %r" % (CASE_TIMEOUT_S, e))
 
 
 def shrink_opt_case(case: dict[str, Any], pred, tmp: str) -> dict[str, Any]:  # type: ignore[no-untyped-def]
@@ -1441,9 +1468,7 @@ def main(chk: core.Check) -> int:
     chunks: list[list[dict[str, Any]]] = [[] for _ in range(n_proc * 4)]
     for i, c in enumerate(cases):
         chunks[i % len(chunks)].append(c)
-    ctx = mp.get_context("spawn")
-    with ctx.Pool(n_proc) as pool:
-        results_chunks = pool.map(_worker, [(ch, chk.tmp) for ch in chunks if ch])
+    results_chunks = _map_workers([(ch, chk.tmp) for ch in chunks if ch], n_proc)
     flat_cases = [c for ch in chunks if ch for c in ch]
     flat_res = [x for rc in results_chunks for x in rc]
     first_broke: tuple[dict[str, Any], dict[str, Any]] | None = None
@@ -1513,8 +1538,7 @@ def search(chk: core.Check) -> None:
     for c in cases:
         c["sseed"] = r.randrange(1 << 30)
     chunks = [cases[i::24] for i in range(24)]
-    with mp.get_context("spawn").Pool(12) as pool:
-        out = pool.map(_worker, [(ch, chk.tmp) for ch in chunks])
+    out = _map_workers([(ch, chk.tmp) for ch in chunks], 12)
     n = 0
     for ch, rs in zip(chunks, out):
         for case, res in zip(ch, rs):
